@@ -903,6 +903,17 @@ func Run(c *hx.Ctx) {
 			c.Emit("run %s", w.observe())
 			w.monitorRun(log)
 			w.monitorInclusion(true)
+		case "runinc":
+			// `runinc at=k`: a run in which the DA includer makes ONE pass at a write boundary INSIDE the sync loop's
+			// block applications: the retriever scans while the sync loop is paused (so every mark of the scan is set:
+			// the point is deterministic), the sync loop is started again, and right before its k-th durable write
+			// (k = 0: before SaveBlockData of the first block; 1: after it, before the state; 2: before SetHeight; ...)
+			// the body of DAIncluderLoop runs synchronously (VerifDAIncluderOnce).  Then everything runs until quiescent.
+			if w.full == nil || w.full.M == nil || w.dead {
+				c.Emit("dead")
+				continue
+			}
+			c.Emit("runinc %s", w.runInc(o.Int("at")))
 		case "p2p":
 			// parts of the proposer's chain handed over by the P2P store loops (events carry the current DA cursor)
 			if w.full == nil || w.full.M == nil || w.dead || w.prod == nil {
@@ -1127,6 +1138,92 @@ func (w *World) held(hdrFirst bool, hold int) bool {
 		w.monitorInclusion(false)
 	}
 	return ok
+}
+
+// runInc: see op `runinc`.  Monitor (independent of the model): right after the includer pass at the boundary the
+// DA-included height (memory and persisted) is at most the STORE height of that instant, and SetFinal was called
+// for applied heights only.
+func (w *World) runInc(at int) string {
+	m, e := w.full.M, w.full
+	ctx := context.Background()
+	w.stopSync()
+	w.from = e.DS.NumWrites()
+	w.fromH = e.Height()
+	w.fromInc = m.GetDAIncludedHeight()
+	m.VerifRetrieveSignal()
+	log := w.waitScan()
+	type sample struct {
+		fired        bool
+		h, inc, disk uint64
+		fin          []uint64
+		nInc         int
+		err          error
+	}
+	var sm sample
+	var mu sync.Mutex
+	target := w.from + at
+	if at < 0 {
+		target = -1
+	}
+	e.DS.OnWrite = func(n int) {
+		mu.Lock()
+		if sm.fired || n != target {
+			mu.Unlock()
+			return
+		}
+		sm.fired = true
+		mu.Unlock()
+		nf := len(e.Exec.Finals)
+		sm.err = m.VerifDAIncluderOnce(ctx)
+		sm.h, _ = e.Store.Height(ctx)
+		sm.inc = m.GetDAIncludedHeight()
+		sm.disk = w.meta("d")
+		sm.fin = append([]uint64(nil), e.Exec.Finals[nf:]...)
+		sm.nInc = e.DS.NumWrites() - n
+	}
+	w.startSync()
+	ok := w.settle()
+	e.DS.OnWrite = nil
+	if !ok {
+		w.dead = true
+		w.rep("C02/loop-terminated", "SyncLoop returned while syncing from the DA layer")
+	}
+	w.noteObserved(log)
+	mid := "mid=-"
+	if sm.fired {
+		where := "?"
+		if i := target + sm.nInc; i < e.DS.NumWrites() {
+			where = kindOf(bm.DescribeWS(e.DS.Log[i]))
+		}
+		last := "start"
+		if at > 0 {
+			last = kindOf(bm.DescribeWS(e.DS.Log[target-1]))
+		}
+		where = "includer-pass-between-" + last + "-and-" + where
+		if sm.err != nil {
+			w.report("C07/includer-error", sm.err.Error())
+		}
+		if sm.inc > sm.h || sm.disk > sm.h {
+			w.report("C07/da-included/exceeds-chain-height/"+where, fmt.Sprintf("DA-included height %d (persisted %d) while the store height is %d", sm.inc, sm.disk, sm.h))
+		}
+		for _, f := range sm.fin {
+			if f > sm.h {
+				w.report("C07/finalize/unapplied-height/"+where, fmt.Sprintf("SetFinal(%d) while the store height is %d", f, sm.h))
+				break
+			}
+		}
+		mid = fmt.Sprintf("mid=%d/%d/%d/%s", sm.h, sm.inc, sm.disk, nums(sm.fin))
+	}
+	if !w.dead {
+		w.runIncluder()
+	}
+	out := w.observe()
+	if !w.dup() {
+		out = mid + " " + out
+	}
+	w.monitorRun(log)
+	w.monitorInclusion(true)
+	return out
 }
 
 // a height the DA layer answered "not found" for was passed without its blobs
